@@ -40,6 +40,12 @@ func vC19Cb(a int, rest ...int) int {
 // vC19Run: mock vC19F with the recording callback (or with a stub) under the given
 // logging configuration, call it, reset, and return everything observable.
 func vC19Run(console, level int, stub bool, a int, rest []int) vObs {
+	return vC19Run2(console, level, console, level, stub, a, rest)
+}
+
+// vC19Run2: as vC19Run, with the logging configuration at the time of the calls
+// (console2, level2) independent of the one at configuration time.
+func vC19Run2(console, level, console2, level2 int, stub bool, a int, rest []int) vObs {
 	logger.ConsoleLevel, logger.LogLevel = console, level
 	vC19Seen = vObs{}
 	b := Create()
@@ -49,6 +55,7 @@ func vC19Run(console, level int, stub bool, a int, rest []int) vObs {
 		b.Func(vC19F).Apply(vC19Cb)
 	}
 	o := vObs{}
+	logger.ConsoleLevel, logger.LogLevel = console2, level2
 	f := vInvoke(vC19F, "C19.run").(func(int, ...int) int)
 	func() {
 		defer func() {
@@ -87,7 +94,8 @@ func vC19Compare(stub bool, id string) {
 	// run 1: logging off (console below debug, level below trace)
 	off := vC19Run(logger.WarningLevel, logger.InfoLevel, stub, a, rest)
 	// run 2: an arbitrary logging configuration (covers OpenDebug, OpenTrace, GOOM_DEBUG)
-	on := vC19Run(verifInt("console2"), verifInt("level2"), stub, a, rest)
+	// (the configuration may also change between Apply and the calls: OpenDebug ... CloseDebug)
+	on := vC19Run2(verifInt("console2"), verifInt("level2"), verifInt("console3"), verifInt("level3"), stub, a, rest)
 	verifAssert(off.calls == on.calls, id+".same-call-count")
 	verifAssert(off.a == on.a && off.nrest == on.nrest && off.rest0 == on.rest0, id+".same-arguments-seen")
 	verifAssert(off.panicked == on.panicked, id+".same-panics")
